@@ -956,6 +956,9 @@ impl BreadthFirstSearch {
         let mut path = Vec::new();
         let mut max_depth = 0;
 
+        // Everything the search derives is speculative until the root goal is proven
+        facts.begin_undo_frame();
+
         queue.push_back((root_goal as *mut Goal, 0));
 
         while let Some((goal_ptr, depth)) = queue.pop_front() {
@@ -1010,6 +1013,13 @@ impl BreadthFirstSearch {
         }
 
         let success = root_goal.is_proven();
+
+        // Rules fired along the way changed the caller's facts: keep that only for a proof
+        if success {
+            facts.commit_undo_frame();
+        } else {
+            facts.rollback_undo_frame();
+        }
 
         SearchResult {
             success,
